@@ -26,6 +26,9 @@ RULE = ("DIP texts with 4 context nodes and 1-2 constrained nodes (float with un
         "clause nested under the node at their indent (selected or not, closed by indentation, further property lines after it); conditions "
         "joining 2-4 sub-conditions with || and && in every tree shape and truth pattern (also on bool and str nodes); a fifth of the cases are STAGED parses (DIP(env) continues on the returned environment, 2-3 "
         "stages) whose later stages modify the node, the node its !condition refers to ({?} < {?k}) or an unrelated node, judged after every stage; "
+        "a further quarter of the volume are float/int nodes with a !condition of the shape `{?} <op> literal [unit]` (6 operators; literal without unit, in the node's unit, "
+        "another unit, another dimension; final value on / 3e-7 inside / 5e-6 outside / far from the converted literal, reached by 0-2 modifications) whose value is computed by the C16 model itself "
+        "(condNum on the final value, in doubles) and judged by an independent verdict of the generator; "
         "real DIP.parse accepts or raises; the values every node "
         "ends with are computed independently by the generator and the Lean specification `holds` decides them; on acceptance the returned "
         "env.data() is re-checked against those values. non-trivial = >=2 constraint kinds on one node, or an option/condition in another unit, "
@@ -38,7 +41,9 @@ ASSUMPTIONS = [
     "a node without declared dimensions takes scalar values only; a function delivering an array to a scalar node returns at least 2 elements "
     "(numpy converts a 1-element array to a scalar)",
     "tolerance verdicts are judged only when robust (10% away from the boundary 1e-8 + 1e-6*|b|)",
-    "!condition expressions come from the C18 logical grammar with {?} bound to the node; their value is computed by the C18 model/specification",
+    "!condition expressions come from the C18 logical grammar with {?} bound to the node; their value is computed by the C18 model/specification - "
+    "except in the simple-cond stream, where the C16 model computes `{?} <op> literal [unit]` from the final value (condNum); strict comparisons are "
+    "judged exactly on the boundary only when the double the code holds for the converted literal is the one the formula b*k_lit/k_node gives",
     "re.match is a parameter: its verdict on the final value is computed by the harness and handed to model and specification",
     "int nodes are modified in their own unit (int casting of converted values is C14)",
     "the value a modification in another unit leaves in a node is computed with the units layer itself (Quantity.value, property C04), so the "
@@ -51,7 +56,8 @@ ASSUMPTIONS = [
 EXPLANATION = ("theorems: the validation loop accepts a node list iff every node satisfies holds (soundness and completeness, by induction over the "
                "node list, for all values/options/units, with conversion, isclose, condition value and re.match as parameters); "
                "cast_value's dimension test iff the value has every declared axis and every declared bound holds; options compared after "
-               "conversion to the node's unit")
+               "conversion to the node's unit; the !condition `{?} <op> literal [unit]` as a model function of the final value with its exact acceptance "
+               "set over an ordered field (strict operators reject the boundary, tolerant ones accept it, monotone in the value)")
 
 LUNITS = ["m", "cm", "km", "mm"]
 CONTEXT = ["k float = 3 m", "n int = 4", "w str = 'ab'", "j int = 2 m", "tt bool = true", "ff bool = false"]
